@@ -548,24 +548,23 @@ func (m *Mast) SeekIter(ctx context.Context, k interface{}, f func(interface{}, 
 	if err != nil {
 		return err
 	}
-	keyLayer, err := m.keyLayer(k, m.branchFactor)
-	if err != nil {
-		return fmt.Errorf("layer: %w", err)
-	}
+	// Descend all the way down (or to the key itself, if present): when the
+	// key is absent, the first entry not smaller than it may be below the
+	// key's own layer.
 	options := findOptions{
-		targetLayer:   uint8min(keyLayer, m.height),
+		targetLayer:   0,
 		currentHeight: m.height,
 	}
-	node, i, err := node.findNode(ctx, m, k, &options)
+	_, _, err = node.findNode(ctx, m, k, &options)
 	if err != nil {
 		return err
 	}
-	if i >= len(node.Key) ||
-		options.targetLayer != options.currentHeight {
-		return nil
-	}
 	for i := len(options.path) - 1; i >= 0; i-- {
 		entry := options.path[i]
+		if i > 0 && options.path[i-1].node == entry.node {
+			// findNode stays on the same node when there is no child to follow
+			continue
+		}
 		err = entry.node.seekIter(ctx, entry.linkIndex, f, m)
 		if err == ErrIterDone {
 			return nil
